@@ -17,7 +17,9 @@ RELEASES = [([1, 0], 39170), ([1, 1], 39171), ([1, 3], 11913), ([1, 4], 5892), (
             # PyPy magics of the historical corpus (header form observed in test/bytecode_*pypy*)
             ([2, 7], 62218), ([3, 5], 112), ([3, 6], 160), ([3, 6], 192), ([3, 7], 240),
             # further PyPy magics xdis accepts: header form of their Python version
-            ([3, 3], 64), ([3, 7], 224), ([3, 8], 256), ([3, 9], 336), ([3, 10], 384)]
+            ([3, 3], 64), ([3, 7], 224), ([3, 8], 256), ([3, 9], 336), ([3, 10], 384),
+            # PyPy 3.2: the "weird" magic of test/bytecode_3.2pypy (which load.py rewrites to 3187) and 3187 itself; 3.2 header = timestamp only
+            ([3, 2], 48), ([3, 2], 3187)]
 
 
 def run(tier, rep):
